@@ -950,6 +950,76 @@ func c07BatchDups(k int, b Bounds) *Scenario {
 	}
 }
 
+// c07BatchDupsHeld: a batch in which id 7 occurs twice (both refused, neither runs) next to a slow call
+// with id 8. While call 8 is still executing - so the batch has not been answered yet - no call with id 7
+// is in flight: a separate request with id 7 must be accepted.
+func c07BatchDupsHeld(b Bounds) *Scenario {
+	return &Scenario{
+		Name:   "batch [call(7), slow call(8), call(7)]: id 7 is used again while call 8 still runs",
+		Params: map[string]any{},
+		Bounds: b,
+		New: func() *Instance {
+			h := &c07H{gates: NewGates(), running: map[string]string{}}
+			body := func() {
+				lib, peer, _ := NewPipe(PipeOpts{Name: "srv", CloseUnblocksRecv: true})
+				srv := jrpc2.NewServer(c07Assigner{h.handler()}, &jrpc2.ServerOptions{Concurrency: 4})
+				srv.Start(lib)
+				bad := func(msg string) { vs.Yield("report"); vs.Note("eager-viol", msg) }
+				vs.GoNamed("peer", func() {
+					defer peer.Close()
+					peer.Send([]byte(`[{"jsonrpc":"2.0","id":7,"method":"fast0"},{"jsonrpc":"2.0","id":8,"method":"slow0"},{"jsonrpc":"2.0","id":7,"method":"fast1"}]`))
+					vs.Await(func() bool { return h.running["8"] != "" }, "handler parked")
+					vs.AwaitQuiescence()
+					if keys, ok := privKeys(srv, "used"); ok && strings.Join(keys, ",") != "8" {
+						bad("only call 8 is in flight (both members with id 7 were refused), but the reserved ids are {" + strings.Join(keys, ",") + "}")
+					}
+					peer.Send([]byte(`{"jsonrpc":"2.0","id":7,"method":"fast2"}`))
+					r, ok := peer.Recv()
+					if !ok {
+						bad("no reply to the separate call with id 7")
+						return
+					}
+					ms, _, _ := parseRecord(r)
+					if len(ms) != 1 || ms[0].ID() != "7" || !ms[0].Has("result") {
+						bad("no call with id 7 is in flight (the two batch members sharing it were refused), but a separate call with id 7 got " + string(r))
+					}
+					delete(h.running, "8")
+					h.gates.Open("slow0")
+					r2, ok := peer.Recv()
+					ms2, _, _ := parseRecord(r2)
+					n7, n8 := 0, 0
+					for _, m := range ms2 {
+						if m.ID() == "7" && isDupErr(m) {
+							n7++
+						}
+						if m.ID() == "8" && m.Has("result") {
+							n8++
+						}
+					}
+					if !ok || n7 != 2 || n8 != 1 {
+						bad("the batch must be answered with two duplicate-id errors for id 7 and the result of call 8, got " + string(r2))
+					}
+					vs.AwaitQuiescence()
+					if keys, ok := privKeys(srv, "used"); ok && len(keys) > 0 {
+						bad("ids still reserved after every call has been answered: " + strings.Join(keys, ","))
+					}
+				})
+				srv.WaitStatus()
+			}
+			return &Instance{Body: body, Check: func(x *vs.Exec) []Viol {
+				v := genericRules(x, nil)
+				Hit("C07.R1")
+				for _, e := range x.Log {
+					if e.K == "eager-viol" {
+						v = append(v, Viol{"C07.R1", e.Arg(0)})
+					}
+				}
+				return v
+			}}
+		},
+	}
+}
+
 // c07LostReply: the reply to a call (or to a batch) cannot be sent - the channel refuses that one
 // record and stays up, the server keeps running. The calls are over all the same: their ids must be
 // free again, and their contexts ended.
@@ -1027,6 +1097,7 @@ func c07LostReply(batch bool, b Bounds) *Scenario {
 func c07Scenarios(tier string) []*Scenario {
 	var out []*Scenario
 	out = append(out, c07LostReply(false, Bounds{1, 1, 0}), c07LostReply(true, Bounds{1, 1, 0}))
+	out = append(out, c07BatchDupsHeld(Bounds{1, 1, 0}))
 	var firsts []c07Op
 	for _, id := range []string{"1"} { // ids are symmetric: the first operation uses id 1
 		for _, m := range c07Methods {
